@@ -313,10 +313,12 @@ func (f *frame) enterLoop(li *loopInfo, in *State) *State {
 	}
 	lp := fmt.Sprintf("%s:loop%d", f.path, li.ordinal)
 	li.entryNext = in.next
+	li.preState = in.clone()
 	if li.spec != nil {
 		ov := f.headerPhiOverrides(li, func(phi *ssa.Phi) (Val, bool) { v, ok := entryVals[phi]; return v, ok })
 		f.seenOverride(li, in, ov)
 		env := f.specEnv(in, b, ov)
+		env.LoopPre = li.preState
 		for i, inv := range li.spec.Invariants {
 			goal, _ := f.tryEvalClause(inv, env)
 			c.oblige(in, lp, fmt.Sprintf("inv-entry%d", i+1), goal, inv.Text, firstPos(b))
@@ -357,6 +359,7 @@ func (f *frame) enterLoop(li *loopInfo, in *State) *State {
 		ov := f.headerPhiOverrides(li, func(phi *ssa.Phi) (Val, bool) { v, ok := li.hdrVals[phi]; return v, ok })
 		f.seenOverride(li, hs, ov)
 		env := f.specEnv(hs, b, ov)
+		env.LoopPre = li.preState
 		for _, inv := range li.spec.Invariants {
 			if t, ok := f.tryEvalClause(inv, env); ok {
 				c.assume(hs, t)
@@ -389,6 +392,7 @@ func (f *frame) backEdge(li *loopInfo, from *ssa.BasicBlock, es *State) {
 	ov := f.headerPhiOverrides(li, func(phi *ssa.Phi) (Val, bool) { return f.val(phi.Edges[idx]), true })
 	f.seenOverride(li, es, ov)
 	env := f.specEnv(es, from, ov)
+	env.LoopPre = li.preState
 	lp := fmt.Sprintf("%s:loop%d", f.path, li.ordinal)
 	for i, inv := range li.spec.Invariants {
 		goal, _ := f.tryEvalClause(inv, env)
